@@ -149,7 +149,10 @@ pub fn fuzz_gen(prop: &str, src: &mut crate::src::Src) -> Option<(&'static str, 
             _ => ("structured", c12::gen_structured(src, 0)),
         },
         "C13" => ("random-histories", c13::gen_case(src, 0)),
-        "C14" => ("random-sessions", c14::gen_case(src, 0)),
+        "C14" => match k {
+            0 | 1 => ("wrapped-lines", c14::gen_wrapped(src, 0)),
+            _ => ("random-sessions", c14::gen_case(src, 0)),
+        },
         "C15" => match k {
             0 | 1 => ("single-op-calls", c15::gen_single_ops(src, 0)),
             _ => ("multi-op-calls", c15::gen_multi(src, 0)),
@@ -158,7 +161,10 @@ pub fn fuzz_gen(prop: &str, src: &mut crate::src::Src) -> Option<(&'static str, 
             0 | 1 => ("random-no-resize", c16::gen_plain(src, 0)),
             _ => ("random-with-resize", c16::gen_resize(src, 0)),
         },
-        "C17" => ("random-histories", c17::gen_case(src, 0)),
+        "C17" => match k {
+            0 | 1 => ("random-pairs", c17::gen_pairs(src, 0)),
+            _ => ("random-histories", c17::gen_case(src, 0)),
+        },
         "C18" => ("random-sequences", c18::gen_random(src, 0)),
         "C19" => ("random-histories", c19::gen_case(src, 0)),
         "C20" => match k {
